@@ -123,9 +123,21 @@ class ConfigScalarMarker(ConfigNode):
     pass
 
 
+def _copy_args(base, value):
+    ''' Arguments from which ``base`` makes an object equal to ``value`` - for the types which do not accept an
+        instance of themselves (e.g. the dates yaml timestamps are resolved to): those they are pickled with.
+    '''
+    return base.__reduce__(value)[1]
+
+
 class ConfigScalar(ConfigScalarMarker, metaclass=ConfigScalarMeta):
     def __new__(cls, *value, **kwargs):
-        return cls._dyn_base.__new__(cls, *value) # pylint: disable=no-member
+        try:
+            return cls._dyn_base.__new__(cls, *value) # pylint: disable=no-member
+        except TypeError:
+            if len(value) != 1 or not isinstance(value[0], cls._dyn_base): # pylint: disable=no-member
+                raise
+            return cls._dyn_base.__new__(cls, *_copy_args(cls._dyn_base, value[0])) # pylint: disable=no-member
 
     def __init__(self, value, **kwargs):
         ConfigNode.__init__(self, **kwargs)
@@ -154,7 +166,7 @@ class ConfigScalar(ConfigScalarMarker, metaclass=ConfigScalarMeta):
         if self._dyn_base is ConfigNone:
             return ConfigNone.__str__(self)
 
-        return str(self._dyn_base(self)) # pylint: disable=no-member
+        return str(self._get_native_value())
 
     def _get_value(self):
         if self._dyn_base in [configbool, ConfigNone]: # pylint: disable=no-member
@@ -178,10 +190,17 @@ class ConfigScalar(ConfigScalarMarker, metaclass=ConfigScalarMeta):
         if self._dyn_base in [configbool, ConfigNone]: # pylint: disable=no-member
             return self._get_value()
 
-        return self._dyn_base(self) # pylint: disable=no-member
+        try:
+            return self._dyn_base(self) # pylint: disable=no-member
+        except TypeError:
+            return self._dyn_base(*_copy_args(self._dyn_base, self)) # pylint: disable=no-member
 
     def _is_primary_type_dynamic(self):
         return type(self).__mro__[0] in ConfigScalar._types.values()
+
+    def __reduce_ex__(self, protocol):
+        # (what object.__reduce_ex__ does, also for a base type with a __reduce_ex__ of its own - datetime)
+        return self.__reduce__()
 
     def __reduce__(self):
         if not self._is_primary_type_dynamic():
